@@ -1,15 +1,7 @@
-import Prom.Lemmas.Histogram
-/-
-C08 — Bucket counts follow `value <= upper bound` for every input.
-Property theorems only. `add` (f64 addition) is a parameter: every statement
-holds for every `add`, in particular for IEEE addition with its rounding.
--/
+import Prom.Lemmas.C08Aux
+
 namespace Prom.C08
 open Prom
-
-/-- the list the code validates: the defaults when the request is empty -/
-def effective (defaults bs : List UInt64) : List UInt64 := if bs.isEmpty then defaults else bs
-
 /-- **accept_iff** — a configuration is accepted exactly when (after defaulting) it is a
     strictly increasing list of numbers; the result is that list minus a trailing `+Inf`. -/
 theorem accept_iff (defaults bs r : List UInt64) :
@@ -29,23 +21,6 @@ theorem reject_iff (defaults bs : List UInt64) :
   simp only []
   rw [← bucketsOk_iff]
   by_cases h : bucketsOk (if bs.isEmpty then defaults else bs) = true <;> simp [h]
-
-theorem dropLast_strictIncr : ∀ {bs : List UInt64}, StrictIncr bs → StrictIncr bs.dropLast
-  | [], _ => trivial
-  | [_], _ => trivial
-  | [a, _], h => by
-      show f64IsNaN a = false
-      exact ((f64Lt_iff _ _).1 h.1).1
-  | a :: b :: c :: r, h => by
-      have ih := dropLast_strictIncr (bs := b :: c :: r) h.2
-      simp only [List.dropLast_cons_cons] at ih ⊢
-      cases hr : (c :: r).dropLast with
-      | nil =>
-        rw [hr] at ih
-        exact ⟨h.1, ih⟩
-      | cons d r' =>
-        rw [hr] at ih
-        exact ⟨h.1, ih⟩
 
 /-- an accepted configuration is stored as a strictly increasing list of numbers -/
 theorem accepted_strictIncr {defaults bs r : List UInt64} (h : checkAndAdjust defaults bs = some r) :
